@@ -272,10 +272,25 @@ func stepErr(v avfs.VFS, kind int, c call) bool {
 	for i, n := range before {
 		snap[i] = entry(v, n.fi, n.path)
 	}
-	var pfi, qfi fs.FileInfo
+	var pfi, qfi, tfi fs.FileInfo
 	pfi, _ = v.Lstat(c.p)
 	if c.q != "" {
 		qfi, _ = v.Lstat(c.q)
+	}
+	if followsLast(c.op) {
+		// the file a link operand refers to: its other names change with it
+		tfi, _ = v.Stat(c.p)
+	}
+	// operands that reach their entry through a symbolic link in a directory
+	// position name it by another spelling: the lexical reasoning of the
+	// post-conditions and of I5 does not apply to them (I1-I4 still do)
+	throughLink := false
+	for _, x := range []string{c.p, c.q} {
+		if x != "" && c.op != "Symlink" {
+			if r := resolved(v, x, false); r != "" && r != v.Clean(x) {
+				throughLink = true
+			}
+		}
 	}
 	// what the operands resolve to through symbolic links is named by the call too
 	// (calls that act on the link itself name the entry below the resolved parent)
@@ -311,6 +326,9 @@ func stepErr(v avfs.VFS, kind int, c call) bool {
 	if err != nil {
 		return false
 	}
+	if throughLink && !followsLast(c.op) {
+		return true
+	}
 	// a successful creating call leaves the new name in place (a renamed directory
 	// must not be detached from the tree)
 	switch c.op {
@@ -334,7 +352,7 @@ func stepErr(v avfs.VFS, kind int, c call) bool {
 		if pt != "" && under(n.path, pt) || qt != "" && under(n.path, qt) {
 			continue
 		}
-		if n.fi.Mode().IsRegular() && (pfi != nil && v.SameFile(n.fi, pfi) || qfi != nil && v.SameFile(n.fi, qfi)) {
+		if n.fi.Mode().IsRegular() && (pfi != nil && v.SameFile(n.fi, pfi) || qfi != nil && v.SameFile(n.fi, qfi) || tfi != nil && v.SameFile(n.fi, tfi)) {
 			continue
 		}
 		alias := false
